@@ -22,13 +22,15 @@ RULE = ('exhaustive small scope (recording length x window length x all sorted s
         'channels); export_waveforms with an UNSORTED spike vector (outside the statement: judged by equality with the model only); NpyWriter '
         'used directly with every sequence of <= 3 chunks (row counts incl. 0) against declared first dimensions '
         '0..3, plus random sequences with a chunk of another dtype / other trailing dimensions / one dimension '
-        'less (clause 27). '
+        'less (clause 27). Stage 4: one export in 13 omits the unit factor (default 1: raw windows); the array returned by '
+        "extract_waveforms / _extract_waveform must have the recording's sample type. "
         'Non-trivial = at least one spike whose window overflows the recording, touches a chunk/file '
         'boundary or uses a -1 channel, or (model route) a store is present; distinct = distinct abstract input.')
 EXHAUSTIVE = {'quick': True, 'thorough': True}
 CLAUSES = {
     1: 'observed output differs from the Coq model PV.C03.Model',
-    21: 'C03_extract / C03_extract_waveforms (direct extraction = zero-padded window per spike)',
+    21: 'C03_extract / C03_extract_waveforms (direct extraction = zero-padded window per spike, an array of the '
+        "recording's own sample type)",
     22: 'C03_export (file loads as float64 array of the declared shape (n_spikes, n, n_channels_loc))',
     23: 'C03_export / C03_iter (loaded values = window x unit factor, every spike once, in spike order)',
     24: 'C03_store / C03_store_masked (look-up in the exported subset store = scaled window on the stored channels, '
@@ -68,6 +70,8 @@ FACTORS = {
     'npi2': ('np.int64(2)', 'NpI64', 4),
 }
 FKEYS = list(FACTORS)
+# stage 4: sample2unit NOT passed at all (export_waveforms' default, the int 1): the file must hold the raw windows
+FACTORS['def'] = (None, 'PyInt', 2)
 
 
 # ---- generator ------------------------------------------------------------------------------------
@@ -126,6 +130,8 @@ def _export_case(i, rng, sizes, nc, cs, samples, n, backend=None):
         'spikes': [[s, r] for s, r in zip(samples, _table(rng, samples, nc, w))], 'n': n, 'w': w,
         'factor': _rot(FKEYS, i + i // 8), 'sdtype': _rot(SDTYPES[:4], i // 3), 'cache': bool(i % 2),
         'threads': 1 + i % 3}}
+    if i % 13 == 6:
+        case['inp']['factor'] = 'def'            # stage 4: unit factor omitted
     if i % 5 == 0 and sum(sizes) <= 1000:
         amp = _amp(case['inp']['dtype'], sum(sizes), nc)
         if amp > 1:
@@ -358,6 +364,10 @@ CORPUS = [
                                'sdtype': 'int64', 'cache': False, 'threads': 1}},
     {'kind': 'export', 'inp': {'sizes': [3], 'nc': 2, 'cs': 2, 'backend': 'array', 'dtype': 'float32', 'amp': 762599,
                                'spikes': [[0, [0, 1]], [2, [1, -1]]], 'n': 3, 'w': 2, 'factor': 'f25',
+                               'sdtype': 'int64', 'cache': False, 'threads': 1}},
+    # stage 4: the unit factor omitted (default 1): the file holds the raw windows as float64
+    {'kind': 'export', 'inp': {'sizes': [3], 'nc': 2, 'cs': 2, 'backend': 'flat', 'dtype': 'int16',
+                               'spikes': [[0, [0, 1]], [2, [1, -1]]], 'n': 3, 'w': 2, 'factor': 'def',
                                'sdtype': 'int64', 'cache': False, 'threads': 1}},
     # spikes exactly on a chunk bound and on a file bound, one chunk without spikes, unsigned samples
     {'kind': 'export', 'inp': {'sizes': [2, 4], 'nc': 2, 'cs': 2, 'backend': 'flat', 'dtype': 'int16',
@@ -672,8 +682,8 @@ def _do_export(np, d, i):
         samples = _samples(np, [s for s, _ in i['spikes']], i['sdtype'])
         table = np.array([r for _, r in i['spikes']], dtype=np.int64).reshape(len(i['spikes']), i['w'])
         path = os.path.join(d, 'w.npy')
-        export_waveforms(path, tr, samples, table, n_samples_waveforms=i['n'], cache=i['cache'],
-                         sample2unit=_factor(np, i['factor']))
+        kw = {} if i['factor'] == 'def' else {'sample2unit': _factor(np, i['factor'])}
+        export_waveforms(path, tr, samples, table, n_samples_waveforms=i['n'], cache=i['cache'], **kw)
     finally:
         if close:
             close()
@@ -704,6 +714,10 @@ def run_case(case):
                             out = extract_waveforms(tr, _samples(np, i['samples'], sdtype), _chans(np, i['chans'], ckind),
                                                     n_samples_waveforms=i['n'])
                         res = _canon(np, out)
+                        if res[0] == 'waves' and res[1] != dtype:
+                            # stage 4: the window is made of rows of the recording: same sample type (the model is
+                            # polymorphic in the sample type and returns that very type); judged as a failure
+                            res = ['wrongdtype', 'got %s for a %s recording' % (res[1], dtype)]
                     finally:
                         if close:
                             close()
@@ -1181,7 +1195,8 @@ def shrink(case):
             yield mk(**{key: sp[:d] + [new if k == 'extract' else [new, sp[d][1]]] + sp[d + 1:]})
     if i['n'] > 1:
         yield mk(n=i['n'] - 1)
-    if k == 'extract' and len(i['chans']) > 1:
+    if k == 'extract' and len(i['chans']) > 1 and not any(c[3] == 'none' for c in i['cfgs']):
+        # (channel_ids=None = every channel: chans must stay [0..nc) for those configurations)
         for d in range(len(i['chans'])):
             yield mk(chans=i['chans'][:d] + i['chans'][d + 1:])
     if k != 'extract' and i['w'] > 1:
